@@ -32,6 +32,8 @@ func main() {
 		cmdFn(os.Args[2:])
 	case "check":
 		cmdCheck(os.Args[2:])
+	case "locals":
+		cmdLocals(os.Args[2:])
 	case "pins":
 		cmdPins(os.Args[2:])
 	case "sweep":
@@ -234,4 +236,27 @@ func cmdSweep(args []string) {
 			fmt.Printf("%-70s paths=%-3d obl=%-4d %.1fs %s\n", strings.TrimPrefix(r.Key, vc.ModulePath+"/"), r.Paths, len(r.Obligations), time.Since(t0).Seconds(), st)
 		}
 	}
+}
+
+// cmdLocals prints, for every function under contract in /repo, its captured variables and source locals by
+// position (spec/locals_baseline.json: lets a contract survive the renaming of a variable it mentions).
+func cmdLocals(args []string) {
+	s, err := vc.NewSession("/repo", "/verif/spec", "/verif/work/dev")
+	if err != nil {
+		fmt.Fprintln(os.Stderr, "error:", err)
+		os.Exit(2)
+	}
+	out := map[string][]vc.LocalInfo{}
+	for key := range s.Ex.Contracts {
+		if fn, ok := s.Ex.FuncByKey[key]; ok {
+			if o := fn.Origin(); o != nil {
+				fn = o
+			}
+			if l := s.Ex.LocalsOf(fn); len(l) > 0 {
+				out[key] = l
+			}
+		}
+	}
+	data, _ := json.MarshalIndent(out, "", " ")
+	fmt.Println(string(data))
 }
